@@ -1089,3 +1089,89 @@ Qed.
 
 End Facts.
 End ScanProofs.
+
+(* ====================================================================================
+   a machine that newBmPrefix returned has sound tables - no side condition
+   ==================================================================================== *)
+Lemma bmp_neg_step_neg : forall full last st examine ch, ch < 0 -> bm_neg_step full last st examine ch = Crash 1.
+Proof.
+  intros full last st examine ch H. unfold bm_neg_step. replace (ch <? 128) with true by lia.
+  unfold bm_at, znth. replace (ch <? 0) with true by lia. reflexivity.
+Qed.
+
+Lemma bmp_neg_loop_nonneg : forall pat rtl full fuel k examine st st',
+  examine = bm_last rtl (zlen pat) - k * bm_bump rtl -> 0 <= k ->
+  bm_neg_loop pat full (bm_last rtl (zlen pat)) (bm_bf rtl (zlen pat)) (bm_bump rtl) fuel examine st = Ok (Some st') ->
+  forall j, k <= j < zlen pat -> 0 <= bmp_p pat (bm_last rtl (zlen pat) - j * bm_bump rtl).
+Proof.
+  intros pat rtl full fuel. induction fuel as [|f IH]; intros k examine st st' He Hk Hl j Hj; [discriminate|].
+  cbn [bm_neg_loop] in Hl.
+  destruct (examine =? bm_bf rtl (zlen pat)) eqn:Ebf.
+  - exfalso. unfold bm_last, bm_bf, bm_bump in *. destruct rtl; lia.
+  - destruct (bm_at pat examine) as [ch| | |] eqn:Ea; try discriminate. cbn [bind] in Hl.
+    apply bmp_at_Ok in Ea. destruct Ea as [Hex Hch].
+    destruct (Z_lt_ge_dec ch 0) as [Hneg|Hnn]; [rewrite bmp_neg_step_neg in Hl by lia; discriminate|].
+    destruct (bm_neg_step full (bm_last rtl (zlen pat)) st examine ch) as [[st1|]| | |]; try discriminate.
+    cbn [bind] in Hl. destruct (Z.eq_dec j k) as [->|Hne].
+    + rewrite <- He. unfold bmp_p. lia.
+    + apply (IH (k + 1) (examine - bm_bump rtl) st1 st'); [lia | lia | exact Hl | lia].
+Qed.
+
+Section NewSome.
+Variable lower : Z -> Z.
+
+Theorem bmp_new_Some_ok : forall pattern ci rtl t, bm_new lower pattern ci rtl = Ok (Some t) ->
+  bm_pattern t = map (bm_fold lower ci) pattern /\ bm_rtl t = rtl /\ bm_ci t = ci /\ bmp_tab_ok t.
+Proof.
+  intros pattern ci rtl t Hn.
+  assert (Hne : pattern <> []).
+  { intros ->. unfold bm_new in Hn. destruct ci; cbn in Hn; destruct rtl; discriminate. }
+  assert (Hnn : forall x, In x pattern -> 0 <= bm_fold lower ci x).
+  { intros x Hx. pose proof Hn as Hn'. unfold bm_new in Hn'. rewrite bmp_fold_map in Hn'.
+    set (pat := map (bm_fold lower ci) pattern) in *.
+    destruct (bm_positive_table pat rtl) as [pos| | |]; try discriminate. cbn [bind] in Hn'.
+    match type of Hn' with context [bm_neg_loop ?p ?fl ?l ?b ?bu ?fu ?ex ?s] =>
+      destruct (bm_neg_loop p fl l b bu fu ex s) as [[st'|]| | |] eqn:El; try discriminate end.
+    pose proof (bmp_neg_loop_nonneg pat rtl _ (S (length pat)) 0 (bm_last rtl (zlen pat)) _ st' ltac:(lia) ltac:(lia) El) as Hall.
+    assert (Hin : In (bm_fold lower ci x) pat) by (unfold pat; apply in_map; exact Hx).
+    apply In_nth with (d := 0) in Hin. destruct Hin as (i & Hi & Heq).
+    set (jj := if rtl then Z.of_nat i else zlen pat - 1 - Z.of_nat i).
+    specialize (Hall jj ltac:(unfold jj, zlen; destruct rtl; lia)).
+    replace (bm_last rtl (zlen pat) - jj * bm_bump rtl) with (Z.of_nat i) in Hall
+      by (unfold jj, bm_last, bm_bump; destruct rtl; lia).
+    unfold bmp_p, bm_gz in Hall. rewrite Nat2Z.id in Hall. lia. }
+  destruct (bmp_new_ok lower pattern ci rtl Hne Hnn) as (r & Hr & Hspec).
+  rewrite Hn in Hr. inversion Hr; subst r. exact Hspec.
+Qed.
+
+End NewSome.
+
+(* ====================================================================================
+   findFirstCharDefault with the modelled machine in place of the oracles
+   ==================================================================================== *)
+Theorem bmp_finder_default_H1 :
+  forall (R : Type) (text : list Z) (exec : Z -> option R * Z) (set_in : Z -> Z -> bool) (lower : Z -> Z)
+         (anchors ts : Z) (t : bmtab) (o : option fdopts) (fc : option fdfc),
+    let n := zlen text in
+    let rtl := bm_rtl t in
+    let succeeds := fun x => fst (exec x) <> None in
+    (abit anchors ANCH_BEGINNING = true -> forall x, sc_in_text n x -> succeeds x -> x = 0) ->
+    (abit anchors ANCH_START = true -> forall x, sc_in_text n x -> succeeds x -> x = ts) ->
+    (abit anchors ANCH_ENDZ = true -> forall x, sc_in_text n x -> succeeds x ->
+       x = n \/ (x = n - 1 /\ nth (Z.to_nat x) text 0 = 10)) ->
+    (abit anchors ANCH_END = true -> forall x, sc_in_text n x -> succeeds x -> x = n) ->
+    bmp_tab_ok t ->
+    (forall i, 0 <= i < n -> 0 <= bmp_tx lower t text i) ->
+    bmp_prefix_fact lower t text R exec ->
+    sc_H1_true R n rtl (fd_total (fd_find_first_char_default text set_in lower rtl anchors ts
+                          (Some (bm_is_match_fn lower t text)) (Some (bm_scan_fn lower t text)) o fc)) exec /\
+    sc_H1_false R n rtl (fd_total (fd_find_first_char_default text set_in lower rtl anchors ts
+                           (Some (bm_is_match_fn lower t text)) (Some (bm_scan_fn lower t text)) o fc)) exec.
+Proof.
+  intros R text exec set_in lower anchors ts t o fc n rtl succeeds Fbeg Fstart Fendz Fend Hok Hnn Hfact.
+  apply fd_default_H1; try assumption.
+  - intros im Him x Hx Hs. inversion Him; subst im. destruct Hok as (HM & _ & _).
+    exact (bmp_is_match_fact lower t text R exec HM Hfact x Hx Hs).
+  - intros scan Hsc. inversion Hsc; subst scan. exact (bmp_scan_fact lower t text R exec Hok Hnn Hfact).
+  - intros H. discriminate.
+Qed.
